@@ -1,6 +1,7 @@
 import RR.Model.Blocks
 import RR.Model.Hand
 import RR.Model.Source
+import RR.Model.Dsp
 import RR.Model.Util
 
 /-!
@@ -177,7 +178,10 @@ def registry (name : String) (p : List Nat) : Option Block :=
   | none =>
     match handRegistry name p with
     | some b => some b
-    | none => sourceRegistry name p
+    | none =>
+      match Dsp.dspRegistry name p with
+      | some b => some b
+      | none => sourceRegistry name p
 
 /-- `repeat <n or inf> ; a ; d ; c …`: the `Repeat` API -/
 def handleRepeat (args : String) : String :=
